@@ -63,6 +63,15 @@ const dslModule = "module core\n\ntype user\n\nextend type doc\n  relations\n   
 
 const yamlOK = "schema: '1.2'\ncontents:\n  - core.fga\n  - \"dir%2Fb.fga\"\n  - ../bad.fga\n"
 
+var poolMods = []transformer.ModuleFile{
+	{Name: "z.fga", Contents: "module zeta\n\ntype zebra\n  relations\n    define r: [user]\n"},
+	{Name: "a.fga", Contents: "module alpha\n\ntype user\n\ntype apple\n  relations\n    define r: [user]\n\nextend type zebra\n  relations\n    define s: [user] or r\n"},
+}
+
+func poolConflict() []transformer.ModuleFile {
+	return []transformer.ModuleFile{poolMods[0], poolMods[0], {Name: "c.fga", Contents: "module c\nextend type nope\n  relations\n    define r: [user]\n"}}
+}
+
 type purityPool struct {
 	texts  map[string]string
 	models map[string]*openfgav1.AuthorizationModel
@@ -77,6 +86,10 @@ func newPool() *purityPool {
 	p.texts["t_module"] = dslModule
 	p.texts["y_ok"] = yamlOK
 	p.texts["s_user"] = "group:eng#member"
+	// strings on which the rules of different fields disagree (a condition name may contain ':', '#', '@'; a relation may not; ...)
+	p.texts["s_colon"] = "team:owner"
+	p.texts["s_at"] = "member@corp"
+	p.texts["s_wild"] = "user:*"
 	big, err := transformer.TransformDSLToProto(dslBig)
 	if err != nil {
 		panic(err)
@@ -92,10 +105,7 @@ func newPool() *purityPool {
 	}
 	p.models["m_hoist"] = hoist
 	// a modular model whose type definitions are NOT in the order the printer emits them
-	mods := []transformer.ModuleFile{
-		{Name: "z.fga", Contents: "module zeta\n\ntype zebra\n  relations\n    define r: [user]\n"},
-		{Name: "a.fga", Contents: "module alpha\n\ntype user\n\ntype apple\n  relations\n    define r: [user]\n\nextend type zebra\n  relations\n    define s: [user] or r\n"},
-	}
+	mods := poolMods
 	merged, err := transformer.TransformModuleFilesToModel(mods, "1.2")
 	if err != nil {
 		panic(err)
@@ -107,13 +117,22 @@ func newPool() *purityPool {
 	}
 	p.models["m_other"] = other
 	p.files["f_ok"] = mods
-	p.files["f_conflict"] = []transformer.ModuleFile{mods[0], mods[0], {Name: "c.fga", Contents: "module c\nextend type nope\n  relations\n    define r: [user]\n"}}
+	p.files["f_conflict"] = poolConflict()
 	return p
 }
 
 var purityOps = map[string]string{ // operation -> kind of object it takes
 	"dsl2proto": "dsl", "dsl2json": "dsl", "modular": "dsl", "json2dsl": "json", "proto2dsl": "model", "proto2dsl_src": "model",
 	"wg": "model", "wg_shared": "model", "pg": "model", "merge": "files", "modfile": "yaml", "validators": "str",
+	// every validator on its own: what one of them caches must not change what another answers
+	"v_user": "str", "v_object": "str", "v_userset": "str", "v_type": "str", "v_relation": "str", "v_condition": "str", "v_objectid": "str",
+	"v_userobject": "str", "v_wildcard": "str",
+}
+
+var singleValidators = map[string]func(string) bool{
+	"v_user": validation.ValidateUser, "v_object": validation.ValidateObject, "v_userset": validation.ValidateUserSet, "v_type": validation.ValidateType,
+	"v_relation": validation.ValidateRelation, "v_condition": validation.ValidateRelationshipCondition, "v_objectid": validation.ValidateObjectID,
+	"v_userobject": validation.ValidateUserObject, "v_wildcard": validation.ValidateUserWildcard,
 }
 
 func objKind(name string) string {
@@ -178,6 +197,19 @@ func errText(err error) string {
 	return err.Error()
 }
 
+// lastKept is set by the operations that hand an error VALUE to their caller: reading that value again later must give the same text
+// (a result that a later call can still write to is not a result). Only used by the sequential history mode.
+var lastKept func() string
+
+// keepEnabled is switched on by the sequential history mode only (the concurrent modes must not write the shared slot)
+var keepEnabled bool
+
+func keep(f func() string) {
+	if keepEnabled {
+		lastKept = f
+	}
+}
+
 // execOp runs one operation on an object and returns a digest of everything observable about the result.
 func execOp(op string, text string, model *openfgav1.AuthorizationModel, files []transformer.ModuleFile) (res string) {
 	defer func() {
@@ -188,6 +220,7 @@ func execOp(op string, text string, model *openfgav1.AuthorizationModel, files [
 	switch op {
 	case "dsl2proto":
 		m, err := transformer.TransformDSLToProto(text)
+		keep(func() string { return errText(err) })
 		if err != nil {
 			return digest("err", errText(err))
 		}
@@ -195,6 +228,7 @@ func execOp(op string, text string, model *openfgav1.AuthorizationModel, files [
 		return digest("ok", string(b))
 	case "dsl2json":
 		s, err := transformer.TransformDSLToJSON(text)
+		keep(func() string { return errText(err) })
 		if err == nil {
 			// protojson output is deliberately unstable in whitespace: compare the parsed document
 			var v any
@@ -205,6 +239,7 @@ func execOp(op string, text string, model *openfgav1.AuthorizationModel, files [
 		return digest(s, errText(err))
 	case "modular":
 		m, ext, err := transformer.TransformModularDSLToProto(text)
+		keep(func() string { return errText(err) })
 		if err != nil {
 			return digest("err", errText(err))
 		}
@@ -268,6 +303,8 @@ func execOp(op string, text string, model *openfgav1.AuthorizationModel, files [
 		mf, err := transformer.TransformModFile(text)
 		b, _ := json.Marshal(mf)
 		return digest(string(b), errText(err))
+	case "v_user", "v_object", "v_userset", "v_type", "v_relation", "v_condition", "v_objectid", "v_userobject", "v_wildcard":
+		return digest(singleValidators[op](text))
 	case "validators":
 		return digest(validation.ValidateUser(text), validation.ValidateObject(text), validation.ValidateUserSet(text), validation.ValidateType(text), validation.ValidateRelation(text))
 	}
@@ -324,15 +361,106 @@ type purityTrace struct {
 	Events []purityEvent `json:"events"`
 }
 
+// coldConcurrent: the FIRST use of an operation in this process is concurrent - several goroutines call it from a barrier, on
+// distinct objects, before any library function has completed (the objects are decoded with protojson / taken from constants, never
+// through the library). Lazily initialised package state that is not published safely shows up here and only here.
+func coldConcurrent(op, modelsFile string) error {
+	texts := map[string]string{"t_small": dslSmall, "t_big": dslBig, "t_invalid": dslInvalid, "t_module": dslModule, "y_ok": yamlOK,
+		"s_user": "group:eng#member", "s_colon": "team:owner", "s_at": "member@corp", "s_wild": "user:*"}
+	var dump struct {
+		Models map[string]json.RawMessage `json:"models"`
+		Texts  map[string]string          `json:"texts"`
+	}
+	b, err := os.ReadFile(modelsFile)
+	if err != nil {
+		return err
+	}
+	if err := json.Unmarshal(b, &dump); err != nil {
+		return err
+	}
+	for k, v := range dump.Texts {
+		texts[k] = v
+	}
+	models := map[string]*openfgav1.AuthorizationModel{}
+	for k, raw := range dump.Models {
+		m := &openfgav1.AuthorizationModel{}
+		if err := protojson.Unmarshal(raw, m); err != nil {
+			return err
+		}
+		models[k] = m
+	}
+	files := map[string][]transformer.ModuleFile{"f_ok": poolMods, "f_conflict": poolConflict()}
+	var objs []string
+	kind := purityOps[op]
+	for k := range texts {
+		if objKind(k) == kind {
+			objs = append(objs, k)
+		}
+	}
+	for k := range models {
+		if kind == "model" {
+			objs = append(objs, k)
+		}
+	}
+	for k := range files {
+		if kind == "files" {
+			objs = append(objs, k)
+		}
+	}
+	sort.Strings(objs)
+	if len(objs) == 0 {
+		return fmt.Errorf("no object for operation %s", op)
+	}
+	const g = 8
+	results := make([]string, g)
+	names := make([]string, g)
+	start := make(chan struct{})
+	var wg sync.WaitGroup
+	for i := 0; i < g; i++ {
+		obj := objs[i%len(objs)]
+		names[i] = obj
+		var model *openfgav1.AuthorizationModel
+		if m := models[obj]; m != nil {
+			model = proto.Clone(m).(*openfgav1.AuthorizationModel)
+		}
+		wg.Add(1)
+		go func(i int, obj string, model *openfgav1.AuthorizationModel) {
+			defer wg.Done()
+			<-start
+			results[i] = execOp(op, texts[obj], model, files[obj])
+		}(i, obj, model)
+	}
+	close(start)
+	wg.Wait()
+	out, _ := json.Marshal(map[string]any{"op": op, "objs": names, "results": results})
+	fmt.Println(string(out))
+	return nil
+}
+
 func purityRun(args []string) error {
 	fs := flag.NewFlagSet("purity-run", flag.ExitOnError)
-	mode := fs.String("mode", "seq", "cold | seq | conc")
+	mode := fs.String("mode", "seq", "cold | seq | conc | coldconc | dump")
+	opName := fs.String("op", "", "coldconc: the operation")
+	modelsFile := fs.String("models", "", "coldconc: JSON file written by -mode dump")
 	in := fs.String("in", "", "input ndjson (histories / scenarios)")
 	out := fs.String("out", "", "output ndjson (traces)")
 	pair := fs.String("pair", "", "cold: op|obj")
 	reps := fs.Int("reps", 20, "conc: repetitions per scenario")
 	fs.Parse(args)
+	if *mode == "coldconc" {
+		return coldConcurrent(*opName, *modelsFile)
+	}
 	pool := newPool()
+	if *mode == "dump" {
+		ms := map[string]json.RawMessage{}
+		for k, m := range pool.models {
+			b, _ := protojson.Marshal(m)
+			ms[k] = b
+		}
+		b, _ := json.Marshal(map[string]any{"models": ms, "texts": map[string]string{"j_model": pool.texts["j_model"], "j_hoist": pool.texts["j_hoist"]}})
+		fmt.Println(string(b))
+		return nil
+	}
 	if *mode == "cold" {
 		po := strings.SplitN(*pair, "|", 2)
 		fmt.Println(execOp(po[0], pool.texts[po[1]], pool.models[po[1]], pool.files[po[1]]))
@@ -356,8 +484,17 @@ func purityRun(args []string) error {
 		n++
 		tr := purityTrace{ID: fmt.Sprintf("%s%d", rec.Rec[:1], n), Kind: rec.Rec, Shared: rec.Shared, Calls: rec.Calls, Events: []purityEvent{}}
 		if rec.Rec == "history" {
+			keepEnabled = true
+			type kept struct {
+				read func() string
+				was  string
+				op   string
+				obj  string
+			}
+			var keeps []kept
 			for i, c := range rec.Calls {
 				op, obj := c[0], c[1]
+				lastKept = nil
 				tr.Events = append(tr.Events, purityEvent{Ev: "begin", P: 1, Op: op, Obj: obj})
 				var snap puritySnap
 				if m := pool.models[obj]; m != nil {
@@ -376,7 +513,16 @@ func purityRun(args []string) error {
 					pool.files[obj] = snap.files
 				}
 				tr.Events = append(tr.Events, purityEvent{Ev: "end", P: 1, Res: res})
+				if lastKept != nil {
+					keeps = append(keeps, kept{lastKept, lastKept(), op, obj})
+				}
 				_ = i
+			}
+			// the values the earlier calls returned, read once more after everything that followed
+			for _, k := range keeps {
+				if k.read() != k.was {
+					tr.Events = append(tr.Events, purityEvent{Ev: "mutated", P: 1, Op: k.op, Obj: k.obj})
+				}
 			}
 			return w.write(tr)
 		}
